@@ -313,8 +313,11 @@ Definition spe_batch (d : domain) (c : row) (bsz : nat) (lower : list row) (os :
 Record speglue := { sg_lower : list row; sg_iters : list (list nearorc * list Q * list Q); sg_pad : samp_orc;
                     sg_ix : list nat; sg_dec : dorc; sg_pcols : list (list Q); sg_rso : samp_orc; sg_rcols : list (list Q);
                     sg_rdec : dorc; sg_draws : list Q }.
+Definition spe_batches_n (d : domain) (c : row) (bsz : nat) (lower : list row) (iters : list (list nearorc * list Q * list Q))
+  : option (list (list (row * Q * Q))) :=
+  all_some (map (fun it => spe_batch d c bsz lower (fst (fst it)) (snd (fst it)) (snd it)) iters).
 Definition spe_batches (d : domain) (c : row) (g : speglue) : option (list (list (row * Q * Q))) :=
-  all_some (map (fun it => spe_batch d c (Z.to_nat SPE_BATCH_SIZE) (sg_lower g) (fst (fst it)) (snd (fst it)) (snd it)) (sg_iters g)).
+  spe_batches_n d c (Z.to_nat SPE_BATCH_SIZE) (sg_lower g) (sg_iters g).
 Definition spe_endpoint (d : domain) (opts : list Q) (ps : list DS.prior) (path : spe_path) (n : Z) (c : row) (g : speglue)
   : option response :=
   match path with
